@@ -5,7 +5,7 @@
    parse_bib (render layout d) = denote d is NOT proved: it is checked on every run by the
    correspondence run and the oracle denote_py (harness/props/c01.py). *)
 From Pybtex Require Import Base.Prelude Base.PyChar Base.PyStr Model.BibtexStr Model.Names
-  Model.Scanner Model.BibParser Proofs.BibValues.
+  Model.Scanner Model.BibParser Proofs.BibValues Proofs.BibEntry.
 
 (* values are whitespace-normalised: normalize_whitespace(s) is exactly the
    whitespace-separated words of s joined by single spaces (all 29 whitespace code points,
@@ -26,19 +26,51 @@ Theorem value_part_roundtrip : forall m st quoted ws body rest,
 Proof. exact value_part_delimited. Qed.
 Print Assumptions value_part_roundtrip.
 
-(* VALUE ROUND TRIP, '#' concatenation: a non-empty sequence of braced / quoted parts, each
-   preceded by any whitespace and followed by any whitespace before the next '#', followed by
-   anything that (after whitespace) is not '#', makes parse_value set current_value to
-   exactly the list of the bodies -- every split of a value into concatenated parts, every
-   quoting choice per part and every amount of whitespace (CR LF included) around '#'
-   denote the same list, whose concatenation is the field value.  PARTIAL: bare-number and
-   macro parts are not covered by this theorem (left to the tie / oracle). *)
-Theorem value_roundtrip_partial : forall m (ps : list dpart) st c t,
-  ps <> [] -> Forall wf_dpart ps -> is_space c = false -> c <> c_hash ->
-  sc_rest (p_sc st) = render_dparts ps ++ c :: t ->
-  exists sc', parse_value m st = Ret tt (set_value (set_sc st sc') (map dpart_body ps)) /\ sc_rest sc' = c :: t.
-Proof. exact value_roundtrip_lemma. Qed.
-Print Assumptions value_roundtrip_partial.
+(* VALUE ROUND TRIP: a non-empty '#'-concatenation of parts -- braced {body}, quoted "body",
+   bare number, macro name (defined in the current table, any letter case) -- each preceded
+   by any whitespace and followed by any whitespace before the next '#', followed by a
+   character that is not '#', not whitespace and not a name character (in a file: ',' or the
+   closing delimiter), makes parse_value set current_value to exactly the list of what the
+   parts denote (body / digits / macro expansion).  Hence every spelling of a value --
+   quoting choice per part, split into concatenated parts, whitespace and CR LF around '#',
+   case of macro names -- that denotes the same list reads as the same list. *)
+Theorem value_roundtrip : forall m (ps : list gpart) st c t,
+  ps <> [] -> Forall (wf_gpart (p_macros st)) ps -> is_space c = false -> c <> c_hash -> is_name_char c = false ->
+  sc_rest (p_sc st) = render_gparts ps ++ c :: t ->
+  exists sc', parse_value m st = Ret tt (set_value (set_sc st sc') (map (gpart_value (p_macros st)) ps)) /\ sc_rest sc' = c :: t.
+Proof. exact value_roundtrip_general. Qed.
+Print Assumptions value_roundtrip.
+
+(* ENTRY ROUND TRIP (low level): after the '@', an entry written as
+     ws type ws ( '{' | '(' ) ws key ws ',' [field ',' ... field] [','] ws ( '}' | ')' )
+   -- type a NAME other than string/preamble/comment in any letter case, key any key of the
+   delimiter's key pattern, each field  ws name ws '=' value  with value as above, optional
+   trailing comma, any whitespace (CR LF included) between tokens -- is read by parse_command
+   as exactly (type as written, key, [(name as written, list of part values)] in source
+   order), reports nothing, and leaves the scanner right behind the closing delimiter.
+   PARTIAL: the comma after the key is required here (the spelling '@a{k}' is not covered);
+   author/editor splitting, normalisation and duplicates are the process-level theorems. *)
+Theorem entry_roundtrip_partial : forall m st brace ws0 typ ws1 ws2 key wsk fs trailing wsend rest,
+  forallb is_space ws0 = true -> forallb is_space ws1 = true -> forallb is_space ws2 = true ->
+  forallb is_space wsk = true -> forallb is_space wsend = true ->
+  is_entry_type typ = true -> is_key brace key = true -> Forall (wf_sfield (p_macros st)) fs ->
+  sc_rest (p_sc st) = entry_text brace ws0 typ ws1 ws2 key wsk fs trailing wsend rest ->
+  exists st', parse_command m st = Ret (Some (CEntry typ (Some key) (map (field_result (p_macros st)) fs))) st'
+    /\ sc_rest (p_sc st') = rest /\ p_errs st' = p_errs st /\ p_macros st' = p_macros st.
+Proof. exact entry_reads. Qed.
+Print Assumptions entry_roundtrip_partial.
+
+(* FILE ROUND TRIP (low level): a file that is a sequence of such entries, each preceded by
+   whitespace, followed by whitespace, is read by list(LowLevelParser(text)) as exactly the
+   list of those entries, without any error -- for every choice of delimiters, quoting,
+   concatenation splits, letter case and whitespace.  PARTIAL: no junk text, no @string /
+   @preamble / @comment items (macros are the months), comma after each key; the step from
+   the command list to the database is covered by field_order ... preamble_collected. *)
+Theorem file_roundtrip_partial : forall m es tail,
+  Forall (wf_sentry month_macros) es -> forallb is_space tail = true ->
+  exists st', lowlevel m (file_text es tail) = Ret (map (entry_cmd month_macros) es) st' /\ p_errs st' = [].
+Proof. exact file_lowlevel. Qed.
+Print Assumptions file_roundtrip_partial.
 
 (* FIELD ORDER: fields (other than author/editor) whose names differ pairwise ignoring case
    are all kept, in source order, under the spelling they were written with, each value
@@ -94,12 +126,27 @@ Proof. exact preamble_collected_lemma. Qed.
 Print Assumptions preamble_collected.
 
 (* non-vacuity / examples *)
-Example ex_dparts :
-  let ps : list dpart := [(s2l " ", false, s2l "a {b}", s2l "
- "); ([], true, s2l "c", s2l " ")] in
-  Forall wf_dpart ps /\ render_dparts ps = s2l " {a {b}}
- #""c"" ".
-Proof. vm_compute. split; [repeat constructor|reflexivity]. Qed.
+Definition ex_entry : sentry :=
+  mkSentry (s2l "
+") false (s2l " ") (s2l "Book") [] (s2l " ") (s2l "k:1") []
+    [ (s2l "
+  ", s2l "Title", s2l " ", [ (s2l " ", SDelim true (s2l "A {B}"), s2l " "); ([], SMacro (s2l "JAN"), []); (s2l "
+ ", SNumber (s2l "12"), s2l " ") ]) ] true (s2l "
+") .
+Example ex_entry_wf : Forall (wf_sentry month_macros) [ex_entry]
+  /\ file_text [ex_entry] (s2l "
+") = s2l "
+@ Book( k:1,
+  Title = ""A {B}"" #JAN#
+ 12 ,
+)
+"
+  /\ map (entry_cmd month_macros) [ex_entry]
+     = [CEntry (s2l "Book") (Some (s2l "k:1")) [(s2l "Title", [s2l "A {B}"; s2l "January"; s2l "12"])]].
+Proof.
+  split; [|split; vm_compute; reflexivity].
+  repeat constructor; try reflexivity; cbn; congruence.
+Qed.
 Example ex_normalize : normalize_whitespace (s2l "  two   words
  next ") = s2l "two words next".
 Proof. vm_compute. reflexivity. Qed.
